@@ -98,12 +98,26 @@ impl<T: Bounded> BVH<T> {
                 let c_elems = c_maybe_elems.unwrap();
                 let cll = c_elems.len();
                 if cll > max_num_elements {
-                    // Completamos un nodo intermedio y dejamos pendientes sus ramas
                     let (left, right) = BVH::partition_elements_by_centroid(c_elems);
-                    node_list.push(TreeElement(c_id, Node, c_side, c_maybe_parent_id, None));
-                    pending.push(TreeElement(id + 2, Node, R, Some(c_id), Some(right)));
-                    pending.push(TreeElement(id + 1, Node, L, Some(c_id), Some(left)));
-                    id += 2;
+                    if left.is_empty() || right.is_empty() {
+                        // Partición degenerada (p.e. centroides coincidentes): no se puede subdividir
+                        // más y completamos un nodo terminal con todos los elementos
+                        let mut c_elems = left;
+                        c_elems.extend(right);
+                        node_list.push(TreeElement(
+                            c_id,
+                            Leaf,
+                            c_side,
+                            c_maybe_parent_id,
+                            Some(c_elems),
+                        ));
+                    } else {
+                        // Completamos un nodo intermedio y dejamos pendientes sus ramas
+                        node_list.push(TreeElement(c_id, Node, c_side, c_maybe_parent_id, None));
+                        pending.push(TreeElement(id + 2, Node, R, Some(c_id), Some(right)));
+                        pending.push(TreeElement(id + 1, Node, L, Some(c_id), Some(left)));
+                        id += 2;
+                    }
                 } else {
                     // Completamos un nodo terminal
                     node_list.push(TreeElement(
